@@ -42,4 +42,13 @@ CHECKS = {
     "C07": dict(engine=_A, technique="runtime monitoring: finished()/cycle_count monitors on real MGM, MGM2, DSA computations under a deterministic random scheduler with start-order biases",
                 text="Held on the executions observed: every computation reported finished exactly once, at cycle_count == stop_cycle (in start() when it has no neighbour), no handler or constructor raised, and the pool became quiescent with everybody finished inside the step budget.",
                 note="Bounded progress (budget proportional to k * links) stands for 'eventually'; per-channel FIFO; k in 1..10."),
+    "C08": dict(engine=_A, technique="runtime monitoring: send-log oracle on on_new_cycle arguments of real SynchronousComputationMixin computations (probe algorithm, maxsum, dsatuto) under a deterministic random scheduler",
+                text="Held on the executions observed: round ids advance 0,1,2.. without gap, each round hands exactly the algorithm messages the neighbours tagged with that round (same objects) while all other neighbours sent exactly one sync, no ComputationException; next-round buffering was exercised (counter ahead_buffered).",
+                note="Per-channel FIFO; messages by reference; NCBB is attempted only (its own on_new_cycle raises on this tree, reported as ncbb_skipped)."),
+    "C09": dict(engine=_A, technique="runtime monitoring: assignment snapshot at every finished() of real DBA computations under a deterministic random scheduler, CSP oracle from harness tables",
+                text="Held on the executions observed: at each of the finished() notifications the values of all computations violated no constraint (no table entry >= infinity), incl. max_distance == diameter; unsatisfiable CSPs never finished.",
+                note="Connected CSPs <= 7 variables; a raising handler ends the observation of that run (not part of the statement)."),
+    "C10": dict(engine=_A, technique="runtime monitoring: class-level contract on VariableComputation.value_selection + current_value invariant after every scheduler step, all 11 algorithms",
+                text="Held on the executions observed: every monitored value_selection argument and every current_value read was None or equal to a domain value, for all eleven algorithms (per-algorithm call counts in coverage; fewer than 20 calls for one algorithm makes the run inconclusive).",
+                note="Membership by equality; int/str/float domains; noise and damping at defaults and varied."),
 }
